@@ -1479,6 +1479,24 @@ def list_index(eng, b, x):
     return SV(TInt, w)
 
 
+def list_count(eng, b, x):
+    """s.count(x): only what its comparison with 0 and 1 needs is stated (none / at least one / at least two occurrences)."""
+    if isinstance(b, Box) and b.ty is None:
+        return 0
+    ty = type_of(b)
+    e = to_z3(b)
+    k = _coerce_key(x, ty.t)
+    c, w1, w2 = eng.fresh(TInt, 'cnt'), eng.fresh(TInt, 'cw1'), eng.fresh(TInt, 'cw2')
+    i, j = z3.FreshInt('ci'), z3.FreshInt('cj')
+    n = ty.len(e)
+    eng.assume(c >= 0)
+    eng.assume(z3.Implies(c >= 1, z3.And(0 <= w1, w1 < n, ty.at(e, w1) == k)))
+    eng.assume(z3.Implies(c == 0, z3.ForAll([i], z3.Implies(z3.And(0 <= i, i < n), ty.at(e, i) != k))))
+    eng.assume(z3.Implies(c >= 2, z3.And(w1 < w2, w2 < n, ty.at(e, w2) == k)))
+    eng.assume(z3.Implies(c <= 1, z3.ForAll([i, j], z3.Implies(z3.And(0 <= i, i < j, j < n), z3.Not(z3.And(ty.at(e, i) == k, ty.at(e, j) == k))))))
+    return SV(TInt, c)
+
+
 def list_remove(eng, b, x):
     w = list_index(eng, b, x)
     list_pop(eng, b, w)
@@ -2149,6 +2167,7 @@ def install(eng):
     M[('list', 'pop')] = list_pop
     M[('list', 'popleft')] = lambda e, b: list_pop(e, b, 0)      # collections.deque
     M[('list', 'index')] = list_index
+    M[('list', 'count')] = list_count
     M[('list', 'remove')] = list_remove
     M[('list', 'copy')] = list_copy
     M[('dict', 'get')] = dict_get
